@@ -90,28 +90,38 @@ func (fs *modelFS) clean(p string) string {
 	return path.Clean(p)
 }
 
-// resolve follows symlinks in every component (and in the last one if followLast).
+// resolve follows symlinks in every component (and in the last one if followLast). Components are
+// walked one at a time as the kernel does: ".." is the parent of the directory reached so far (after
+// symlink resolution), not a lexical cancellation of the previous component.
 func (fs *modelFS) resolve(p string, followLast bool, depth int) (string, bool) {
 	if depth > 16 {
 		return "", false
 	}
-	p = fs.clean(p)
-	if p == "/" {
-		return "/", true
+	if !strings.HasPrefix(p, "/") {
+		p = fs.cwd + "/" + p
 	}
-	parts := strings.Split(strings.TrimPrefix(p, "/"), "/")
+	var parts []string
+	for _, c := range strings.Split(p, "/") {
+		if c != "" && c != "." {
+			parts = append(parts, c)
+		}
+	}
 	cur := "/"
 	for i, comp := range parts {
+		last := i == len(parts)-1
+		if comp == ".." {
+			cur = path.Dir(cur)
+			continue
+		}
 		next := path.Join(cur, comp)
 		n := fs.nodes[next]
-		last := i == len(parts)-1
 		if n != nil && n.kind == 2 && (!last || followLast) {
 			tgt := n.target
 			if !strings.HasPrefix(tgt, "/") {
-				tgt = path.Join(cur, tgt)
+				tgt = cur + "/" + tgt
 			}
 			rest := strings.Join(parts[i+1:], "/")
-			return fs.resolve(path.Join(tgt, rest), followLast, depth+1)
+			return fs.resolve(tgt+"/"+rest, followLast, depth+1)
 		}
 		if n == nil && !last {
 			return next, false // missing intermediate directory
@@ -550,14 +560,18 @@ func registerOSModels() {
 	}
 	intrinsics["os.MkdirAll"] = func(ex *Exec, fn *ssa.Function, a []Value) Value {
 		fs := ex.getFS()
-		name := fs.clean(ex.concreteString(a[0], "dir name"))
-		parts := strings.Split(strings.TrimPrefix(name, "/"), "/")
-		cur := "/"
+		name := ex.concreteString(a[0], "dir name")
+		if !strings.HasPrefix(name, "/") {
+			name = fs.cwd + "/" + name
+		}
+		parts := strings.Split(name, "/")
+		cur := ""
 		for _, c := range parts {
 			if c == "" {
 				continue
 			}
-			next := path.Join(cur, c)
+			// prefixes are not cleaned lexically: os.MkdirAll works on the path as the OS resolves it
+			next := cur + "/" + c
 			rp, ok := fs.resolve(next, true, 0)
 			if !ok {
 				return ex.osErr("notexist", "mkdir", name)
@@ -681,6 +695,16 @@ func registerOSModels() {
 	intrinsics["os.IsExist"] = func(ex *Exec, fn *ssa.Function, a []Value) Value {
 		return ex.tt.Bool(ex.errorsIs(a[0].(*IfaceVal), ex.pkgGlobalValue("io/fs", "ErrExist").(*IfaceVal), 0))
 	}
+	intrinsics["os.Chdir"] = func(ex *Exec, fn *ssa.Function, a []Value) Value {
+		fs := ex.getFS()
+		p := ex.concreteString(a[0], "path")
+		rp, ok := fs.resolve(p, true, 0)
+		if n := fs.nodes[rp]; !ok || n == nil || n.kind != 1 {
+			return ex.osErr("notexist", "chdir", p)
+		}
+		fs.cwd = rp
+		return nilErr()
+	}
 	intrinsics["os.Getwd"] = func(ex *Exec, fn *ssa.Function, a []Value) Value {
 		return TupleVal{ex.strConst(ex.getFS().cwd), nilErr()}
 	}
@@ -712,6 +736,16 @@ func registerOSModels() {
 		fs := ex.getFS()
 		p, ok := fs.resolve(ex.concreteString(a[0], "path"), false, 0)
 		return ex.tt.Bool(ok && fs.nodes[p] != nil)
+	}
+	apiFns["vFSChdir"] = func(ex *Exec, fn *ssa.Function, a []Value) Value {
+		fs := ex.getFS()
+		p := ex.concreteString(a[0], "path")
+		rp, ok := fs.resolve(p, true, 0)
+		if n := fs.nodes[rp]; !ok || n == nil || n.kind != 1 {
+			ex.unsupported("vFSChdir: not a directory: " + p)
+		}
+		fs.cwd = rp
+		return nil
 	}
 	apiFns["vFSMkdir"] = func(ex *Exec, fn *ssa.Function, a []Value) Value {
 		fs := ex.getFS()
